@@ -338,6 +338,9 @@ func init() {
 		Check: checkC08,
 	})
 	Generators["C08"] = func(t *rapid.T, tier string) any {
+		if gen.Chance(t, "c08.focused", 60) {
+			return focusedSaveCase(t)
+		}
 		k := gen.DefaultKnobs()
 		k.PSave = 40
 		k.PCall = 2
@@ -367,6 +370,60 @@ func init() {
 		}
 		return ec
 	}
+}
+
+// focusedSaveCase: saves and sends on one (account, asset) pair, amounts tied to its balance.
+func focusedSaveCase(t *rapid.T) *gen.ExecCase {
+	bal := gen.Uniform(t, "f.bal", 22) - 6
+	ec := &gen.ExecCase{Script: &gen.Script{}, Vars: map[string]string{}, Balances: map[string]map[string]string{
+		"x": {"USD": fmt.Sprint(bal)}, "y": {"USD": fmt.Sprint(gen.Uniform(t, "f.baly", 8))}}}
+	amt := func(label string) *big.Int {
+		hi := bal
+		if hi < 0 {
+			hi = 0
+		}
+		return big.NewInt(int64(gen.Uniform(t, label, hi+4)))
+	}
+	mon := func(n *big.Int) *gen.Expr {
+		if gen.Chance(t, "f.var", 20) {
+			name := fmt.Sprintf("m%d", len(ec.Script.Vars))
+			ec.Script.Vars = append(ec.Script.Vars, gen.VarDecl{Type: "monetary", Name: name})
+			ec.Vars[name] = "USD " + n.String()
+			return gen.Var(name)
+		}
+		return gen.Mon(gen.Asset("USD"), gen.Num(n))
+	}
+	srcX := func() *gen.Src {
+		switch gen.Uniform(t, "f.src", 5) {
+		case 0:
+			return &gen.Src{Kind: gen.SOver, Addr: gen.Acct("x"), Bound: mon(big.NewInt(int64(gen.Uniform(t, "f.od", 6))))}
+		case 1:
+			return &gen.Src{Kind: gen.SInorder, Subs: []*gen.Src{{Kind: gen.SAcct, Addr: gen.Acct("x")}, {Kind: gen.SAcct, Addr: gen.Acct("y")}}}
+		case 2:
+			return &gen.Src{Kind: gen.SCapped, Cap: mon(amt("f.cap")), From: &gen.Src{Kind: gen.SAcct, Addr: gen.Acct("x")}}
+		default:
+			return &gen.Src{Kind: gen.SAcct, Addr: gen.Acct("x")}
+		}
+	}
+	n := 2 + gen.Uniform(t, "f.n", 4)
+	for i := 0; i < n; i++ {
+		dst := &gen.Dst{Kind: gen.DAcct, Addr: gen.Acct(gen.Pick(t, "f.dst", []string{"d", "x", "y"}))}
+		switch gen.Uniform(t, "f.kind", 6) {
+		case 0, 1:
+			st := &gen.Stmt{Kind: gen.StSave, SaveFrom: gen.Acct(gen.Pick(t, "f.saveacct", []string{"x", "x", "x", "y"}))}
+			if gen.Chance(t, "f.saveall", 25) {
+				st.All, st.Sent = true, gen.Asset("USD")
+			} else {
+				st.Sent = mon(amt("f.save"))
+			}
+			ec.Script.Stmts = append(ec.Script.Stmts, st)
+		case 2:
+			ec.Script.Stmts = append(ec.Script.Stmts, &gen.Stmt{Kind: gen.StSend, All: true, Sent: gen.Asset("USD"), Src: srcX(), Dst: dst})
+		default:
+			ec.Script.Stmts = append(ec.Script.Stmts, &gen.Stmt{Kind: gen.StSend, Sent: mon(amt("f.send")), Src: srcX(), Dst: dst})
+		}
+	}
+	return ec
 }
 
 func withoutSaves(ec *gen.ExecCase) *gen.ExecCase {
